@@ -82,6 +82,12 @@ def dict_of_key_value_pairs(arg):
             raise ValueError(
                 "Unexpected end of key/value pairs in value '%s'" % arg)
         D[k_eq_v[0]] = k_eq_v[2].strip('\'"')
+        if i + 3 < tokens_len and tokens[i+3] != ',':
+            # pairs are separated by commas; anything else used to be
+            # skipped without a look
+            raise ValueError(
+                "Unexpected '%s' between key/value pairs in value '%s'" % (
+                tokens[i+3], arg))
         i += 4
     return D
 
